@@ -765,7 +765,11 @@ impl Gen {
                     if rng.chance(50) {
                         Some(Box::new(Node::Null))
                     } else {
+                        // (never appending to the stream being folded: that would be a script-level endless recursion)
                         let mut ls = sc.clone();
+                        ls.streams.retain(|x| *x != s);
+                        ls.wo.retain(|x| *x != s);
+                        ls.folding.push(s.clone());
                         Some(Box::new(self.gen(rng, 1, &mut ls)))
                     }
                 } else {
@@ -1107,7 +1111,37 @@ pub fn gen_c18(rng: &mut Rng, np: usize) -> Node {
         let i = id();
         lit_call(rng.below(np), format!("f{i}"), iters.clone(), if rng.chance(50) { Out::Scalar(format!("v{i}")) } else { Out::None })
     };
-    let ctx = match rng.below(7) {
+    let ctx = match rng.below(11) {
+        9 => {
+            // an earlier par whose one branch failed (and was swallowed because the sibling succeeded)
+            let fl = match rng.below(3) {
+                0 => Node::Fail { code: 77, msg: "earlier".into() },
+                1 => Node::Match { l: Arg::Str("p".into()), r: Arg::Str("q".into()), body: Box::new(Node::Null) },
+                _ => { let i = id(); lit_call(fpeer, format!("fail{i}"), iters.clone(), Out::None) }
+            };
+            Node::seq(Node::par(fl, Node::Null), core)
+        }
+        10 => {
+            // an earlier stream fold one of whose iterations failed (swallowed by the fold)
+            let i = id();
+            let st = format!("$e{i}");
+            let app = lit_call(rng.below(np), format!("f{i}"), iters.clone(), Out::Stream(st.clone()));
+            let itn = format!("it{i}");
+            let fold = Node::Fold { iterable: var(&st), it: itn.clone(), body: Box::new(Node::seq(Node::Fail { code: 78, msg: "infold".into() }, Node::Next(itn))), last: Some(Box::new(Node::Null)) };
+            Node::New { var: st, body: Box::new(Node::seq(Node::seq(app, fold), core)) }
+        }
+        7 | 8 => {
+            // a call on the failing instruction's peer that is still WAITING for a value (join) runs earlier in the
+            // same run than the xor: a waiting instruction is not a failure and must not leave traces in :error:
+            let i = id();
+            let j = id();
+            let xw = format!("v{i}");
+            let producer = lit_call(rng.below(np), format!("f{i}"), iters.clone(), Out::Scalar(xw.clone()));
+            let mut a = vec![var(&xw)];
+            a.extend(iters.clone());
+            let waiting = lit_call(fpeer, format!("f{j}"), a, Out::None);
+            Node::seq(Node::par(producer, Node::Null), if rng.chance(50) { Node::par(waiting, core) } else { Node::seq(Node::par(waiting, Node::Null), core) })
+        }
         0 => core,
         1 => Node::seq(other(rng), core),
         2 => Node::seq(core, other(rng)),
